@@ -9,6 +9,7 @@ import (
 	"math/rand"
 	"os"
 	"os/exec"
+	"os/signal"
 	"path/filepath"
 	"regexp"
 	"runtime"
@@ -248,7 +249,25 @@ type Evidence struct {
 // ---------------------------------------------------------------- child
 
 // ChildMain runs the cases of one worker and writes result lines.
+// defaultSignalDispositions: a check may be started from a context in which
+// SIGHUP / SIGINT / SIGQUIT are ignored (nohup, a background job of a
+// non-interactive shell). Ignored signals are inherited across exec, and a
+// shell cannot trap a signal that was ignored when it started - the process
+// trees of the real-process scenarios would never see those signals. Catching
+// them here makes them "handled" in this process, hence default in everything
+// it executes; receiving one ends this process as the default action would.
+func defaultSignalDispositions() {
+	ch := make(chan os.Signal, 4)
+	signal.Notify(ch, syscall.SIGHUP, syscall.SIGINT, syscall.SIGQUIT)
+	go func() {
+		s := <-ch
+		fmt.Fprintf(os.Stderr, "child: received %v\n", s)
+		os.Exit(128 + int(s.(syscall.Signal)))
+	}()
+}
+
 func ChildMain(casesFile string, worker, of int, outFile string, skip map[int]bool) int {
+	defaultSignalDispositions()
 	cases, err := ReadCases(casesFile)
 	if err != nil {
 		fmt.Fprintln(os.Stderr, "child: ", err)
@@ -535,6 +554,7 @@ func RunProperty(p *Property, o RunOpts) int {
 				if inflight >= 0 && !skip[inflight] {
 					eb, _ := os.ReadFile(errFile)
 					stderr := string(eb)
+					fullDump := stderr
 					if len(stderr) > 200000 {
 						stderr = stderr[:100000] + "\n...\n" + stderr[len(stderr)-100000:]
 					}
@@ -547,7 +567,7 @@ func RunProperty(p *Property, o RunOpts) int {
 					if timedOut || strings.Contains(stderr, "CASE-WATCHDOG") {
 						r.Inconclusive = "case watchdog: the case exceeded its time limit"
 						if p.WatchdogFinding != nil {
-							if f := p.WatchdogFinding(stderr); f != nil {
+							if f := p.WatchdogFinding(fullDump); f != nil {
 								r.Inconclusive = ""
 								r.Findings = append(r.Findings, *f)
 							}
